@@ -22,7 +22,9 @@ type Contract struct {
 	NilSafeRecv bool   // pointer-receiver method documented to accept a nil receiver
 	MayNil      []int  // result indexes that may be nil even on success ("may return nil")
 	TreeMutator bool   // mutates the etree it is invoked on (tracked through events, not the heap)
+	TreeObserver bool  // reads tree structure: result is stable until the next tree mutation on the path
 	Pre         string // precondition-bearing callee (deny-list, C09)
+	OkNonNil    []int  // result indexes that are non-nil whenever the callee's error result is nil
 	Note        string
 }
 
@@ -35,21 +37,21 @@ const (
 
 var contracts = map[string]*Contract{
 	// --- goxmldsig
-	"(*" + pDsig + ".ValidationContext).Validate": {Note: "err==nil => result is a fresh tree re-parsed from the canonical bytes covered by a verified signature under ctx.CertificateStore at ctx.Clock; ErrMissingSignature iff no signature references el; el not mutated", MayNil: []int{0}},
+	"(*" + pDsig + ".ValidationContext).Validate": {Note: "err==nil => result is a fresh tree re-parsed from the canonical bytes covered by a verified signature under ctx.CertificateStore at ctx.Clock; ErrMissingSignature iff no signature references el; el not mutated", OkNonNil: []int{0}},
 	pDsig + ".NewDefaultValidationContext":         {NonNil: []int{0}, Note: "context over exactly the given store; Clock nil => wall clock"},
 	"(*" + pDsig + ".Clock).Now":                   {NilSafeRecv: true, Note: "nil-safe; returns the wrapped clock's instant"},
 	pDsig + ".NewDefaultSigningContext":            {NonNil: []int{0}, Note: "signing context over the given key store"},
-	pDsig + ".NewSigningContext":                   {Note: "errors only for a nil signer", MayNil: []int{0}},
+	pDsig + ".NewSigningContext":                   {Note: "errors only for a nil signer", OkNonNil: []int{0}},
 	"(*" + pDsig + ".SigningContext).SetSignatureMethod":           {Writes: []int{0}, Note: "sets the hash for a known algorithm id, error otherwise"},
-	"(*" + pDsig + ".SigningContext).ConstructSignature":           {Note: "builds a ds:Signature over el without mutating it", MayNil: []int{0}},
+	"(*" + pDsig + ".SigningContext).ConstructSignature":           {Note: "builds a ds:Signature over el without mutating it", OkNonNil: []int{0}},
 	"(*" + pDsig + ".SigningContext).SignString":                   {Note: "signs the exact octets given"},
 	"(*" + pDsig + ".SigningContext).GetSignatureMethodIdentifier": {Note: "URI of the configured algorithm"},
 	"(" + pDsig + ".X509KeyStore).GetKeyPair":                      {Note: "user-supplied key store; may fail", MayNil: []int{0, 1}},
 	// --- etree / etreeutils
 	pEU + ".NSFindIterate": {Iterate: true, IterRoot: 0, IterHandler: 3, Note: "calls h for every element (root included, all depths) with that namespace+tag; returns h's first error"},
-	pEU + ".NSDetatch":     {Note: "deep copy with namespace declarations, input unchanged", MayNil: []int{0}},
-	"(*" + pEtree + ".Element).Parent":      {Det: false, MayNil: []int{0}, Note: "may return nil"},
-	"(*" + pEtree + ".Document).Root":       {MayNil: []int{0}, Note: "may return nil"},
+	pEU + ".NSDetatch":     {Note: "deep copy with namespace declarations, input unchanged", OkNonNil: []int{0}},
+	"(*" + pEtree + ".Element).Parent":      {TreeObserver: true, MayNil: []int{0}, Note: "may return nil; stable until the tree is mutated"},
+	"(*" + pEtree + ".Document).Root":       {TreeObserver: true, MayNil: []int{0}, Note: "may return nil; stable until the tree is mutated"},
 	"(*" + pEtree + ".Element).RemoveChild": {TreeMutator: true, MayNil: []int{0}, Note: "returns nil iff t.Parent() != e"},
 	"(*" + pEtree + ".Element).AddChild":    {TreeMutator: true, Note: "appends t (re-parenting it)"},
 	"(*" + pEtree + ".Element).Copy":        {NonNil: []int{0}, Note: "deep copy, input unchanged"},
@@ -92,12 +94,12 @@ var contracts = map[string]*Contract{
 	"io.LimitReader":        {NonNil: []int{0}, Note: "at most n bytes are read from r"},
 	"io.ReadAll":            {Note: "reads to EOF or error"},
 	"compress/flate.NewReader": {NonNil: []int{0}},
-	"compress/flate.NewWriter": {MayNil: []int{0}},
+	"compress/flate.NewWriter": {OkNonNil: []int{0}},
 	"(*compress/flate.Writer).Write": {Writes: []int{0}},
 	"(*compress/flate.Writer).Close": {Writes: []int{0}},
 	// --- std: crypto
-	"crypto/x509.ParseCertificate": {Det: true, MayNil: []int{0}},
-	"crypto/cipher.NewGCM":         {MayNil: []int{0}},
+	"crypto/x509.ParseCertificate": {Det: true, OkNonNil: []int{0}},
+	"crypto/cipher.NewGCM":         {OkNonNil: []int{0}},
 	"crypto/cipher.NewCBCDecrypter": {NonNil: []int{0}, Pre: "len(iv) == b.BlockSize()"},
 	"(crypto/cipher.BlockMode).CryptBlocks": {Writes: []int{1}, Pre: "len(src) % BlockSize == 0 && len(dst) >= len(src)"},
 	"(crypto/cipher.AEAD).Open":      {Pre: "len(nonce) == NonceSize()"},
@@ -112,10 +114,10 @@ var contracts = map[string]*Contract{
 	"crypto/sha512.New":              {NonNil: []int{0}},
 	"crypto/rsa.DecryptOAEP":         {Writes: []int{0}},
 	"crypto/rsa.DecryptPKCS1v15":     {},
-	"crypto/aes.NewCipher":           {MayNil: []int{0}},
+	"crypto/aes.NewCipher":           {OkNonNil: []int{0}},
 	"crypto/rand.Read":               {Writes: []int{0}, Note: "fills the whole slice or returns an error"},
 	// --- std: url / http / template
-	"net/url.Parse":                   {MayNil: []int{0}},
+	"net/url.Parse":                   {OkNonNil: []int{0}},
 	"(*net/url.URL).Query":            {NonNil: []int{0}},
 	"(*net/url.URL).String":           {},
 	"(net/url.Values).Add":            {Writes: []int{0}},
@@ -124,7 +126,7 @@ var contracts = map[string]*Contract{
 	"net/url.QueryEscape":             {Det: true},
 	"net/http.Redirect":               {Writes: []int{0}},
 	"html/template.New":               {NonNil: []int{0}},
-	"(*html/template.Template).Parse": {Writes: []int{0}, MayNil: []int{0}},
+	"(*html/template.Template).Parse": {Writes: []int{0}, OkNonNil: []int{0}},
 	"html/template.Must":              {NonNil: []int{0}, Pre: "err == nil"},
 	"(*html/template.Template).Execute": {Writes: []int{1}},
 	// --- std: sync
